@@ -402,7 +402,7 @@ def vmap_values(tier: str) -> list:
 # ---------------------------------------------------------------------------
 # canonical first values (the stored state a second write starts from)
 # ---------------------------------------------------------------------------
-def canon(fam: str, kind: str, which: str = "full"):
+def canon(fam: str, kind: str, which: str = "full", path: str = "node"):
     """A representable value of the canonical input type of the kind.  which: full | short |
     gap | alt (another dtype / length than `full`)."""
     if fam == "num":
@@ -418,7 +418,7 @@ def canon(fam: str, kind: str, which: str = "full"):
     if fam == "text":
         return {
             "full": {"t": "U", "items": ["p", "q"]},
-            "short": {"t": "str", "s": "old"},
+            "short": {"t": "str", "s": "old"} if path != "concat" else {"t": "U", "items": ["old"]},
             "gap": {"t": "U", "items": ["", "q"]},
             "alt": {"t": "U", "items": ["é", "日本", "r"]},
         }[which]
@@ -436,9 +436,9 @@ def canon(fam: str, kind: str, which: str = "full"):
 # ---------------------------------------------------------------------------
 # cases
 # ---------------------------------------------------------------------------
-def _modes(fam, kind, v, tier, allow_none=True):
+def _modes(fam, kind, v, tier, allow_none=True, path="node"):
     """Step templates around one lattice value v (depth 1 and depth 2 with one canonical side)."""
-    c = canon(fam, kind, "full")
+    c = canon(fam, kind, "full", path)
     out = [
         [["create", v]],
         [["create", c], ["set", v]],
@@ -446,7 +446,7 @@ def _modes(fam, kind, v, tier, allow_none=True):
     ]
     if tier == "thorough":
         for which in ("short", "gap", "alt"):
-            cw = canon(fam, kind, which)
+            cw = canon(fam, kind, which, path)
             if cw != c:
                 out.append([["create", cw], ["set", v]])
                 out.append([["create", cw], ["reopen"], ["set", v]])
@@ -471,13 +471,13 @@ def cases(tier: str) -> list:
     for kind in ("float", "int", "bool", "ref"):
         for v in nums:
             if v["t"] == "nd":
-                if kind != "float" and tier == "quick" and not (len(v["shape"]) == 1 and v["shape"][0] == 2 and v["dtype"] in ("int64", "float64", "bool", "int32")):
+                if kind != "float" and tier == "quick" and not (len(v["shape"]) == 1 and v["shape"][0] in (1, 2) and v["dtype"] in ("int64", "float64", "bool", "int32", "uint8")):
                     continue
                 if kind == "float" and tier == "quick" and v["dtype"] not in ("float64", "float32", "int64"):
                     continue
             elif tier == "quick":
                 continue
-            modes = _modes("num", kind, v, tier, allow_none=False)
+            modes = _modes("num", kind, v, tier, allow_none=False, path="concat")
             if tier == "quick":
                 modes = modes[:2]
             for steps in modes:
@@ -486,7 +486,7 @@ def cases(tier: str) -> list:
         for steps in _modes("text", "text", v, tier):
             out.append({"fam": "text", "kind": "text", "path": "node", "steps": steps})
         if v["t"] in ("U", "S", "O") and (tier == "thorough" or len(v.get("items", v.get("hex"))) == 2):
-            for steps in _modes("text", "text", v, tier, allow_none=False)[: (2 if tier == "quick" else None)]:
+            for steps in _modes("text", "text", v, tier, allow_none=False, path="concat")[: (2 if tier == "quick" else None)]:
                 out.append({"fam": "text", "kind": "text", "path": "concat", "steps": steps})
     for fam, gen in (("comment", comment_values), ("blob", blob_values), ("meta", metadata_values), ("vmap", vmap_values)):
         for v in gen(tier):
